@@ -1,6 +1,7 @@
 import S2T.Drv.Util
 import S2T.Model.Mail
 import S2T.Model.MailText
+import S2T.Model.MailDate
 import S2T.Gen.Router
 import S2T.Gen.Mail
 namespace S2T.Drv.C16
@@ -127,6 +128,31 @@ def eml (j : Json) : Except String Json := do
                        ("reply_to", jPairs r.replyTo), ("subject", jText r.subject), ("plain", jText r.bodyPlain),
                        ("html", jText r.bodyHtml), ("atts", Json.arr ja.toArray)]
 
+def dateAnswer : Except S2T.MailDate.DateErr (List Char) → Json
+  | .ok r => Json.mkObj [("iso", jText r)]
+  | .error .fieldRange => Json.mkObj [("err", Json.str "fieldRange")]
+  | .error .zoneRange => Json.mkObj [("err", Json.str "zoneRange")]
+  | .error .invalid => Json.mkObj [("err", Json.str "invalid")]
+
+/-- op `c16.date`: {"hdr": Date header value} ↦ {"iso": code points} | {"err": …} | {"noncanonical": true} — the whole
+    pipeline on the canonical RFC 5322 form (`isoOfHeader`) -/
+def date (j : Json) : Except String Json := do
+  let h := chars (← getStr j "hdr")
+  match S2T.MailDate.parseCanonical h with
+  | none => return Json.mkObj [("noncanonical", Json.bool true)]
+  | some _ => return dateAnswer (S2T.MailDate.isoOfHeader h)
+
+/-- op `c16.datetuple`: {"f": [y, mo, d, h, mi, s], "tz": seconds | null} (the stdlib tokenizer's result) ↦ the same -/
+def dateTuple (j : Json) : Except String Json := do
+  let f ← natArr j "f"
+  let tz ← match j.getObjVal? "tz" with
+    | .ok .null => pure none
+    | .ok v => some <$> v.getInt?
+    | .error _ => pure none
+  match f with
+  | [y, mo, d, h, mi, sec] => return dateAnswer (S2T.MailDate.ofTuple y mo d h mi sec tz)
+  | _ => throw "six fields expected"
+
 def handle (op : String) (j : Json) : Option (Except String Json) :=
   match op with
   | "c16.sep" => some (sep j)
@@ -137,6 +163,8 @@ def handle (op : String) (j : Json) : Option (Except String Json) :=
   | "c16.eml" => some (eml j)
   | "c16.text" => some (text j)
   | "c16.decode" => some (decode j)
+  | "c16.date" => some (date j)
+  | "c16.datetuple" => some (dateTuple j)
   | _ => none
 
 end S2T.Drv.C16
